@@ -141,7 +141,7 @@ impl Property for C20Prop {
     }
     fn workloads(&self, tier: Tier) -> u64 {
         match tier {
-            Tier::Quick => 8_000,
+            Tier::Quick => 30_000,
             Tier::Thorough => 150_000,
         }
     }
